@@ -10,7 +10,7 @@ NAME_ORDER = ["a", "b", "c", "d", "h", "w"]
 
 # length assignments aligned with NAME_ORDER; chosen to contain unit axes, equal lengths on different axes and distinct lengths
 LENS_QUICK = [(2, 3, 2, 2, 2, 3), (1, 2, 3, 2, 3, 2)]
-LENS_THOROUGH = LENS_QUICK + [(2, 2, 2, 2, 2, 2), (3, 1, 2, 1, 1, 3), (2, 3, 1, 3, 3, 1), (3, 2, 3, 1, 2, 2)]
+LENS_THOROUGH = LENS_QUICK + [(2, 2, 2, 2, 2, 2), (3, 1, 2, 1, 1, 3), (2, 3, 1, 3, 3, 1), (3, 2, 3, 1, 2, 2), (2, 1, 2, 2, 1, 2)]
 
 
 MODE = {"cases": ("Cases", "Emit", ["WellDefinedInv", "C14_ContribPartition"], "C", "Spec"),
@@ -92,12 +92,18 @@ def _generate(rep, specs, timeout, mode):
     return cases
 
 
+# a unit axis between two axes of EQUAL length (b = 1, a = c = 2): moving only the unit axis is a reshape, moving the equal
+# axes is not, and shapes cannot tell the two apart
+LENS_UNIT_BETWEEN_EQUAL = (2, 1, 2, 2, 1, 2)
+
+
 def quick_specs(lens=None):
     lens = lens or LENS_QUICK
+    lens3 = list(lens) + ([LENS_UNIT_BETWEEN_EQUAL] if LENS_UNIT_BETWEEN_EQUAL not in lens else [])
     return [("id", ["a", "b"], lens, 2, 3), ("iddiag", ["a", "b", "c"], lens, 3, 3), ("idcat", ["a", "b"], lens, 3, 3),
-            ("elementwise", ["a", "b"], lens, 2, 2), ("reduce", ["a", "b", "c"], lens, 3, 3), ("preserve", ["a", "b", "c"], lens, 3, 3),
-            ("argfind", ["a", "b", "c"], lens, 3, 3), ("dot", ["a", "b"], lens, 2, 2), ("get_at", ["a", "b"], lens, 2, 3),
-            ("update_at", ["a", "b"], lens, 2, 3)]
+            ("elementwise", ["a", "b"], lens, 2, 2), ("reduce", ["a", "b", "c"], lens3, 3, 3), ("preserve", ["a", "b", "c"], lens3, 3, 3),
+            ("argfind", ["a", "b", "c"], lens3, 3, 3), ("dot", ["a", "b"], lens, 2, 2), ("dot", ["a", "b"], lens[:1], 3, 3),
+            ("get_at", ["a", "b"], lens, 2, 3), ("update_at", ["a", "b"], lens, 2, 3)]
 
 
 def thorough_specs():
